@@ -220,11 +220,17 @@ def ResRel (w : World) : PumpResW → PumpRes → Prop
   | .panic, .panic => True
   | _, _ => False
 
+/-- A `Data` chunk handed out is not the chunker's buffer, and does not overlap it. -/
+def DataDisj (s' : PumpSt) : PumpResW → Prop
+  | .ok (.data _ h) => h ≠ s'.c.buf ∧ ∃ a b', s'.w.aslice h = some a ∧ s'.w.aslice s'.c.buf = some b' ∧
+      a.slice.Disj b'.slice
+  | _ => True
+
 def RefillRel (s' : PumpSt) (rf : RefillW) (out : Refill × Mem × Reader × List Nat) : Prop :=
   s'.r = out.2.2.1 ∧ s'.reqs = out.2.2.2 ∧
   match rf, out.1 with
   | .filled, .filled c' => CRel s'.w s'.c c'
-  | .done res, .done res' c' => ResRel s'.w res res' ∧ CRel s'.w s'.c c'
+  | .done res, .done res' c' => ResRel s'.w res res' ∧ CRel s'.w s'.c c' ∧ DataDisj s' res
   | _, _ => False
 
 theorem readChained_fst (t : Tuning) (m : Mem) (carry : List UInt8) (r : Reader) (count : Nat) :
@@ -249,7 +255,7 @@ theorem refillW_refines (X : ArenaAt) (count : Nat) (t : Tuning) : ∀ (fuel : N
     intro s c m rf s' hrel h
     simp only [refillW, Option.some.injEq, Prod.mk.injEq] at h
     obtain ⟨rfl, rfl⟩ := h
-    exact ⟨rfl, rfl, trivial, hrel⟩
+    exact ⟨rfl, rfl, trivial, hrel, trivial⟩
   | succ fuel ih =>
     intro s c m rf s' hrel h
     obtain ⟨⟨b, hb, hbytes, hblen⟩, hoff⟩ := hrel
@@ -302,7 +308,7 @@ theorem refillW_refines (X : ArenaAt) (count : Nat) (t : Tuning) : ∀ (fuel : N
               simp only at hoff ⊢
               have e := crel_empty_slot (off := s.c.offset) this
               rw [hoff] at e
-              exact ⟨e.buf, hoff⟩
+              exact ⟨⟨e.buf, hoff⟩, trivial⟩
             | ok got =>
               rw [hres] at h
               simp only at h ⊢
@@ -330,13 +336,16 @@ theorem refillW_refines (X : ArenaAt) (count : Nat) (t : Tuning) : ∀ (fuel : N
                     simp only at hoff ⊢
                     have e := crel_empty_slot (off := s.c.offset) this
                     rw [hoff] at e
-                    exact ⟨e.buf, hoff⟩
+                    exact ⟨⟨e.buf, hoff⟩, trivial⟩
                 · rw [if_neg hge] at h ⊢
                   simp only [Option.some.injEq, Prod.mk.injEq] at h
                   obtain ⟨rfl, rfl⟩ := h
                   have hne : got ≠ [] := by intro e; rw [e] at hge; exact hge rfl
-                  refine ⟨rfl, rfl, ⟨by rw [hoff], x, hx, hxb, x2, hne⟩, ?_⟩
-                  exact ⟨⟨ASlice.empty, hslot, sliceBytes_empty w3, rfl⟩, by simp only; rw [hoff]⟩
+                  refine ⟨rfl, rfl, ⟨by rw [hoff], x, hx, hxb, x2, hne⟩, ?_, ?_⟩
+                  · exact ⟨⟨ASlice.empty, hslot, sliceBytes_empty w3, rfl⟩, by simp only; rw [hoff]⟩
+                  · refine ⟨by simp only; omega, x, ASlice.empty, hx, hslot, ?_⟩
+                    intro c _ _
+                    exact Or.inl rfl
               · rw [if_neg hnp] at h ⊢
                 cases hd4 : w3.step (.sDrop s.c.buf) with
                 | none => rw [hd4] at h; cases h
@@ -385,7 +394,7 @@ theorem sliceBytes_take (w : World) (s : Slice) (k : Nat) (hk : k ≤ s.len) :
     rw [List.take_take, Nat.min_eq_left hk]
 
 def PumpRel (res : PumpResW) (s' : PumpSt) (o : PumpOut) : Prop :=
-  ResRel s'.w res o.res ∧ CRel s'.w s'.c o.chunker ∧ s'.r = o.reader ∧ s'.reqs = o.reqs
+  ResRel s'.w res o.res ∧ CRel s'.w s'.c o.chunker ∧ s'.r = o.reader ∧ s'.reqs = o.reqs ∧ DataDisj s' res
 
 /-- `pumpW` returns what the byte-level `pump` returns (for ANY tuning and arena on the byte-level side:
 they do not influence its result), and the two chunkers stay related. -/
@@ -413,7 +422,7 @@ theorem pumpW_refines (clamp : Nat) (X : ArenaAt) (block : Nat) (t : Tuning) (s 
       | done rb c' =>
         simp only [Option.some.injEq, Prod.mk.injEq] at h
         obtain ⟨rfl, rfl⟩ := h
-        exact ⟨e3.1, e3.2, e1, e2⟩
+        exact ⟨e3.1, e3.2.1, e1, e2, e3.2.2⟩
     | filled =>
       cases rb with
       | done rb c' => exact absurd e3 (by simp)
@@ -427,7 +436,7 @@ theorem pumpW_refines (clamp : Nat) (X : ArenaAt) (block : Nat) (t : Tuning) (s 
         · rw [if_pos hlt] at h ⊢
           simp only [Option.some.injEq, Prod.mk.injEq] at h
           obtain ⟨rfl, rfl⟩ := h
-          exact ⟨trivial, ⟨⟨b, hbb, hbytes, hblen⟩, hoff⟩, e1, e2⟩
+          exact ⟨trivial, ⟨⟨b, hbb, hbytes, hblen⟩, hoff⟩, e1, e2, trivial⟩
         · rw [if_neg hlt] at h ⊢
           by_cases hst : c'.buf.take 2 = [FE, FD]
           · rw [if_pos hst] at h ⊢
@@ -438,7 +447,7 @@ theorem pumpW_refines (clamp : Nat) (X : ArenaAt) (block : Nat) (t : Tuning) (s 
               simp only [Option.some.injEq, Prod.mk.injEq] at h
               obtain ⟨rfl, rfl⟩ := h
               obtain ⟨k1, k2⟩ := sSkip_effect hbb hk
-              refine ⟨by simp only [ResRel]; rw [hoff], ⟨⟨_, k1, ?_, ?_⟩, by simp only; rw [hoff]⟩, e1, e2⟩
+              refine ⟨by simp only [ResRel]; rw [hoff], ⟨⟨_, k1, ?_, ?_⟩, by simp only; rw [hoff]⟩, e1, e2, trivial⟩
               · rw [k2]
                 have h2 : min 2 b.slice.len = 2 := by omega
                 simp only [ASlice.skipPrefix, h2]
@@ -450,7 +459,7 @@ theorem pumpW_refines (clamp : Nat) (X : ArenaAt) (block : Nat) (t : Tuning) (s 
             · rw [if_pos hsp] at h ⊢
               simp only [Option.some.injEq, Prod.mk.injEq] at h
               obtain ⟨rfl, rfl⟩ := h
-              exact ⟨trivial, ⟨⟨b, hbb, hbytes, hblen⟩, hoff⟩, e1, e2⟩
+              exact ⟨trivial, ⟨⟨b, hbb, hbytes, hblen⟩, hoff⟩, e1, e2, trivial⟩
             · rw [if_neg hsp] at h ⊢
               cases hk : s1.w.step (.sSplit s1.c.buf (splitPos c'.buf)) with
               | none => rw [hk] at h; cases h
@@ -482,7 +491,14 @@ theorem pumpW_refines (clamp : Nat) (X : ArenaAt) (block : Nat) (t : Tuning) (s 
                     · simp only [List.length_drop]; omega
                 obtain ⟨⟨l1, l2⟩, r1, r2⟩ := halves
                 refine ⟨⟨by rw [hoff, hpre], _, k1, by rw [k3]; exact l1, by rw [l2, hpre], ?_⟩,
-                  ⟨⟨_, k2, by rw [k3]; exact r1, r2⟩, by simp only; rw [hoff, hpre]⟩, e1, e2⟩
+                  ⟨⟨_, k2, by rw [k3]; exact r1, r2⟩, by simp only; rw [hoff, hpre]⟩, e1, e2,
+                  ⟨by simp only; omega, _, _, k1, k2, ?_⟩⟩
+                rotate_left
+                · unfold ASlice.splitAt
+                  intro c _ _
+                  by_cases hge : splitPos c'.buf ≥ b.slice.len
+                  · rw [if_pos hge]; exact Or.inl rfl
+                  · rw [if_neg hge]; simp only; omega
                 intro hnil
                 have : (c'.buf.take (splitPos c'.buf)).length = 0 := by rw [hnil]; rfl
                 rw [hpre] at this
